@@ -185,6 +185,7 @@ var fsCalls = []string{
 	"BoltBucketImpl).DeleteBucket", "BoltTxImpl).Commit", "RootBoltImpl).Sync",
 	"UnpersistedSegment).Persist", "SegmentPlugin).MergeUsing", "SegmentPlugin).OpenUsing",
 	"scorch.persistToDirectory", "scorch.copyToDirectory", "util.OpenBolt",
+	".persistSegmentBaseToWriter", // zapx: between creating a segment file and filling it in place
 }
 
 func fsLabel(full string) string {
